@@ -467,3 +467,57 @@ Definition C06_in := (bool * str * option (list (str * str)))%type.
 Definition C06_verdict (c : cfg) (i : C06_in) (o : parse_out) : N :=
   let '(by_path, text, want) := i in
   verdict parse_eqb (if by_path then from_filepath c text want else from_file c text want) o.
+
+(** *** C19 *)
+From CP Require Import Model.ChartState.
+Definition opres_eqb (a b : opres) : bool :=
+  match a, b with
+  | RKeys x, RKeys y => list_eqb str_eqb x y
+  | RFloat x, RFloat y => float_result_eqb x y
+  | RQuery x, RQuery y => qres_eqb x y
+  | RTime x, RTime y => Z_result_eqb x y
+  | RDone, RDone => true
+  | RBool x, RBool y => Bool.eqb x y
+  | RErr x, RErr y => errkind_eqb x y
+  | _, _ => false
+  end.
+(** One observed step: (is the full rendering of the chart unchanged?, instrument keys, chart == twin, result). *)
+Definition C19_step := (bool * list str * bool * opres)%type.
+Definition C19_in := (parse_in * list op)%type.
+Definition C19_out := result (chart * list C19_step).
+Fixpoint run_obs (auto : bool) (st : cstate) (ops : list op) : list C19_step :=
+  match ops with
+  | [] => []
+  | o :: r => let '(st', res) := step auto st o in
+              (true, snd (obs st'), match cs_extra st' with [] => true | _ => false end, res) :: run_obs auto st' r
+  end.
+Definition C19_step_eqb (a b : C19_step) : bool :=
+  let '(u1, k1, t1, r1) := a in let '(u2, k2, t2, r2) := b in
+  Bool.eqb u1 u2 && list_eqb str_eqb k1 k2 && Bool.eqb t1 t2 && opres_eqb r1 r2.
+Definition C19_model (c : cfg) (i : C19_in) : C19_out :=
+  let* (ch, _) := from_file c (fst (fst i)) (snd (fst i)) in
+  Ok (ch, run_obs (autoinsert_tracks c) (init_state ch) (snd i)).
+Definition C19_verdict (c : cfg) (i : C19_in) (o : C19_out) : N :=
+  verdict (result_eqb (fun x y => chart_eqb (fst x) (fst y) && list_eqb C19_step_eqb (snd x) (snd y))) (C19_model c i) o.
+(** Judged on the implementation alone: nothing observable ever changes, the twin stays equal,
+    assignments are rejected. *)
+Definition C19_spec (i : C19_in) (o : C19_out) : bool :=
+  match o with
+  | Err _ => false
+  | Ok (ch, steps) =>
+      same_len steps (snd i) &&
+      forallb (fun os => let '(o1, (u, k, t, r)) := os in
+                         u && list_eqb str_eqb k (map fst (c_tracks ch)) && t
+                         && match o1 with OSetAttr => opres_eqb r (RErr EFrozen) | _ => true end)
+              (combine (snd i) steps)
+  end.
+
+(** *** C18: aux = did str()/repr() of the chart and of every event and track succeed? *)
+From CP Require Import Spec.C18.
+Definition C18_spec (c : cfg) (aux : bool) (i : parse_in) (o : parse_out) : bool :=
+  if bounded (tbl c) (fst i) then
+    match o with
+    | Ok _ => aux
+    | Err e => doc_err e
+    end
+  else true.
